@@ -60,6 +60,32 @@ def patch_event(darsia, rng, n, k, relp, relq, h, omode, colour, tid):
     # "far" origins are 1e6 voxel sizes away)
     e["assembled"] = int(asm.img.shape == img.img.shape and asm.img.dtype == img.img.dtype and np.array_equal(asm.img, img.img)
                          and lat(asm.origin) == lat(img.origin) and np.allclose(asm.dimensions, img.dimensions, rtol=1e-12, atol=0))
+    # ... whatever the image shows: a black block that covers whole patch interiors (with bright patches to its right / below),
+    # a boolean mask, a constant image, an image with a single bright voxel
+    e["assembled_patterns"] = 1
+    try:
+        pats = []
+        base_ = np.asarray(img.img, dtype=float)
+        z = base_.copy()
+        z[: max(1, (2 * n[0]) // max(2, k[0])), : max(1, n[1] // max(1, k[1]))] = 0
+        pats.append(z)
+        z2 = base_.copy()
+        z2[..., : max(1, n[1] // 2)] = 0 if not colour else z2[..., : max(1, n[1] // 2)] * 0
+        pats.append(z2)
+        pats.append((np.arange(base_.size).reshape(base_.shape) % 3 == 0))
+        pats.append(np.full(base_.shape, 7.0))
+        one = np.zeros(base_.shape)
+        one[tuple(-1 for _ in base_.shape)] = 5.0
+        pats.append(one)
+        for a_ in pats:
+            im_ = type(img)(a_.copy(), **{k_: v_ for k_, v_ in img.metadata().items()})
+            with contextlib.redirect_stdout(io.StringIO()):
+                asm_ = darsia.Patches(im_, list(k), rel_overlap=relp / relq).assemble()
+            if not (asm_.img.shape == a_.shape and np.array_equal(asm_.img, a_)):
+                e["assembled_patterns"] = 0
+    except Exception as ex:  # noqa
+        e["assembled_patterns"] = -1
+        e["pattern_error"] = repr(ex)[:120]
     # the second way of putting patches together: blending with partition-of-unity weights over the overlaps
     try:
         with contextlib.redirect_stdout(io.StringIO()):
